@@ -1006,13 +1006,10 @@ class Engine:
                     self.front[quiet]['time'] = self.global_time
                     self.front[quiet]['update'] = {}
 
-            elif self.global_time + full_step <= end_time:
+            elif self._time_after(full_step) <= end_time:
                 # at least one process ran within the interval
                 # increase the time, apply updates, and continue
-                self.global_time += full_step
-                if self.global_time_precision is not None:
-                    self.global_time = round(
-                        self.global_time, self.global_time_precision)
+                self.global_time = self._time_after(full_step)
 
                 # advance all quiet processes to current time
                 for quiet in quiet_paths:
@@ -1050,6 +1047,13 @@ class Engine:
 
             if force_complete and self.global_time == end_time:
                 force_complete = False
+
+    def _time_after(self, step: float) -> float:
+        """The global time after ``step``, on the decimal grid if any."""
+        time = self.global_time + step
+        if self.global_time_precision is not None:
+            time = round(time, self.global_time_precision)
+        return time
 
     @staticmethod
     def _end_process_if_parallel(process: Process) -> None:
